@@ -124,6 +124,20 @@ class VCell:
         self.vec = vec
 
 
+class VRefCell:
+    """`&mut arr[i]` handed out by `iter_mut()` over a concrete array"""
+
+    def __init__(self, arr, idx):
+        self.arr, self.idx = arr, idx
+
+
+class VSymEnum:
+    """`.enumerate()` over a symbolic collection"""
+
+    def __init__(self, sym):
+        self.sym = sym
+
+
 class VIter:
     def __init__(self, items):
         self.items = list(items)
@@ -426,6 +440,15 @@ class Interp:
             p = st["path"]
             if p in ("debug_assert", "debug_assert_eq", "debug_assert_ne"):
                 return UNIT
+            if p == "assert" and st.get("args"):
+                c = self.expr(st["args"][0], env)
+                if c is True:
+                    return UNIT
+                if c is False:
+                    self.ctx.exits.append(("panic", "assert!(" + st["tokens"][:80] + ") is false"))
+                    return UNIT
+                self.ctx.exits.append(("panic_unless", c))
+                return UNIT
             self.fail(st, f"macro statement {p}!")
         if k == "item":
             it = st["item"]
@@ -495,6 +518,8 @@ class Interp:
     def e_unary(self, e, env):
         v = self.expr(e["e"], env)
         if e["op"] == "*":
+            if isinstance(v, VRefCell):
+                return v.arr.items[v.idx]
             return v
         if e["op"] == "-":
             if isinstance(v, int):
@@ -598,6 +623,10 @@ class Interp:
         if k in ("paren",):
             return self.assign(target["e"], val, env)
         if k == "unary" and target["op"] == "*":
+            inner = self.expr(target["e"], env) if target["e"]["k"] == "path" else None
+            if isinstance(inner, VRefCell):
+                inner.arr.items[inner.idx] = val
+                return
             return self.assign(target["e"], val, env)
         self.fail(target, f"assignment target {k}")
 
@@ -1025,6 +1054,8 @@ class Interp:
             if m in ("iter", "into_iter", "iter_mut"):
                 if isinstance(recv, VCoeffVec):
                     return recv
+                if m == "iter_mut" and isinstance(recv, VArr):
+                    return VIter([VRefCell(recv, i) for i in range(len(recv.items))])
                 if isinstance(recv, (VArr, VIter)):
                     return VIter(recv.items)
                 if isinstance(recv, VRange):
@@ -1039,6 +1070,22 @@ class Interp:
             if m in ("copied", "cloned") and isinstance(recv, VIter):
                 return recv
             return recv
+        if m == "enumerate" and isinstance(recv, VSymIter):
+            return VSymEnum(recv.sym)
+        if m == "zip" and isinstance(recv, (VSymEnum, VSymIter)) and isinstance(args[0], (VIter, VArr)):
+            # a symbolic collection zipped with a concrete one: as many elements as the concrete one (zip stops at the shorter;
+            # the symbolic side is ASSUMED at least that long -- stated in the unit)
+            items = args[0].items
+            out = []
+            for i, x in enumerate(items):
+                el = VOpaque("idx", [Sym(recv.sym.path), i])
+                out.append(VTuple([VTuple([i, el]) if isinstance(recv, VSymEnum) else el, x]))
+            return VIter(out)
+        if m == "fold" and isinstance(recv, VIter) and len(args) == 2 and isinstance(args[1], VClosure):
+            acc = args[0]
+            for x in recv.items:
+                acc = self.call_closure(args[1], [acc, x])
+            return acc
         if m == "zip" and isinstance(recv, VCoeffVec):
             # `coeffs.iter_mut().zip(poly.iter())`: the pointwise traversal of two coefficient vectors
             other = args[0]
